@@ -163,14 +163,25 @@ FromSpecRanges ==
   { Rg(<<v>>, <<>>, i, FALSE) : v \in BoundVersions, i \in BOOLEAN } \cup
   { Rg(<<uv[1]>>, <<uv[2]>>, TRUE, FALSE) : uv \in { p \in BoundVersions \X BoundVersions : VLess(p[1], p[2]) } } \cup
   { Rg(<<v>>, <<v>>, TRUE, TRUE) : v \in BoundVersions }
-FromSpecInit == /\ item \in { [k |-> "fromspec", name |-> n, r |-> r] : n \in {"python_version", "python_full_version"}, r \in FromSpecRanges }
+\* a specifier that was PARSED from one clause remembers its source text (`simplified`): from_specifier
+\* re-renders that clause; python_full_version operands are zero-padded except for ~= and wildcards
+FromClause(name, cl) ==
+  LET pad == name = "python_full_version" /\ cl.op \notin {"~=", "==*", "!=*"}
+  IN [kind |-> "ver", var |-> name, op |-> cl.op, rel |-> IF pad THEN PadTo3(cl.v.rel) ELSE cl.v.rel, rev |-> FALSE]
+FromSpecClauses == { c \in [op : VerOps, v : BoundVersions] : ValidClause(c) /\ (c.op \in {"==*", "!=*"} => Len(c.v.rel) <= 2) }
+FromSpecInit == /\ item \in { [k |-> "fromspec", name |-> n, r |-> r] : n \in {"python_version", "python_full_version"}, r \in FromSpecRanges } \cup
+                            { [k |-> "fromclause", name |-> n, cl |-> c] : n \in {"python_version", "python_full_version"}, c \in FromSpecClauses }
                 /\ phase = "item" /\ table = <<>>
 FromSpecNext == /\ phase = "item" /\ phase' = "converted"
-                /\ table' = LET f == FromRange(item.name, item.r)
-                             IN IF ~f.ok THEN <<>> ELSE [i \in 1..Len(EnvSeq) |-> EvalAtom(f.a, EnvSeq[i])]
+                /\ table' = IF item.k = "fromspec"
+                               THEN LET f == FromRange(item.name, item.r)
+                                    IN IF ~f.ok THEN <<>> ELSE [i \in 1..Len(EnvSeq) |-> EvalAtom(f.a, EnvSeq[i])]
+                               ELSE [i \in 1..Len(EnvSeq) |-> EvalAtom(FromClause(item.name, item.cl), EnvSeq[i])]
                 /\ UNCHANGED item
 FromSpecSpec == FromSpecInit /\ [][FromSpecNext]_svars
 \* C11: from_specifier yields None or an atom true exactly on the versions the specifier admits
 FromSpecExact == phase = "converted" /\ table # <<>> =>
-   \A i \in 1..Len(EnvSeq) : table[i] = InRange(item.r, Final(EnvVersion(item.name, EnvSeq[i])))
+   \A i \in 1..Len(EnvSeq) :
+      LET v == Final(EnvVersion(item.name, EnvSeq[i])) IN
+      table[i] = (IF item.k = "fromspec" THEN InRange(item.r, v) ELSE Sat(item.cl, v))
 =============================================================================
